@@ -50,6 +50,12 @@ def gen_family(tier):
                     continue
                 for dlm in (None, "SPACE", "TAB", "COMMA"):
                     fam.append({"d": d, "c": c, "r": r, "wrap": wrap, "dlm": dlm})
+    # a text column whose cells hold blanks (legitimate when the delimiter is TAB or COMMA)
+    for (d, c) in ((3, 3), (4, 4)):
+        for r in (2, 3):
+            for wrap in ("NO", "YES"):
+                for dlm in ("TAB", "COMMA"):
+                    fam.append({"d": d, "c": c, "r": r, "wrap": wrap, "dlm": dlm, "textcol": True})
     return fam
 
 
@@ -103,6 +109,8 @@ def gen_abstract(p):
                 v = "-999.25"
             if i == 1 and j == c - 1 and j > 0:
                 v = "-" + v
+            if p.get("textcol") and j == c - 1:
+                v = ["SANDY SHALE", "LIME STONE 2", "CLAY"][i % 3]
             row.append(v)
         cells.append(row)
     pads = {}
@@ -222,6 +230,8 @@ def gen_layout_variants(p, tier):
         for padk in ("none", "after", "around"):
             if dlm == "SPACE" and padk != "none":
                 continue
+            if dlm == "SPACE" and p.get("textcol"):
+                continue  # text cells hold blanks: a blank delimiter would not be a presentation-only change
             if dlm == p["dlm"] and padk == "none":
                 continue
             out.append(("T8-redelimit", {"dlm": dlm, "dlm_pad": padk}))
